@@ -58,6 +58,7 @@ def exprsOf : CStmt → List CExpr
   | .skip _ => []
   | .exprstmt _ => []
   | .ret _ => []
+  | .vcall _ _ _ _ => []
 def exprsOfList : List CStmt → List CExpr
   | [] => []
   | s :: ss => exprsOf s ++ exprsOfList ss
@@ -124,6 +125,7 @@ def WFStmt (c : Ctx) : CStmt → Bool
   | .skip _ => true
   | .exprstmt _ => false
   | .ret _ => false
+  | .vcall _ _ _ _ => false
 def WFStmts (c : Ctx) : List CStmt → Bool
   | [] => true
   | s :: ss => WFStmt c s && WFStmts c ss
@@ -195,6 +197,7 @@ def CarveS (CarveE : CExpr → Bool) (env : CEnv) : CStmt → Bool
   | .skip _ => true
   | .exprstmt _ => true
   | .ret _ => true
+  | .vcall _ _ _ _ => true
 def CarveSs (CarveE : CExpr → Bool) (env : CEnv) : List CStmt → Bool
   | [] => true
   | s :: ss => CarveS CarveE env s && CarveSs CarveE env ss
